@@ -151,6 +151,7 @@ func runExprBatch(o *hlib.Out, paths [][]any) {
 	if err != nil || len(outs) != len(paths) {
 		// fall back to one by one so that a single bad case does not hide the others
 		if len(paths) == 1 {
+			fmt.Fprintf(os.Stderr, "expr %s: eval error %v (outputs %d)\n", fmtPath(paths[0]), err, len(outs))
 			o.Case("expr "+fmtPath(paths[0]), "evalerr")
 			return
 		}
@@ -229,7 +230,7 @@ func exprFixed() [][]any {
 func runExpr(o *hlib.Out, r *hlib.Rand, cfg hlib.Config) {
 	n := 1200
 	if cfg.Thorough() {
-		n = 12000
+		n = 8000
 	}
 	ps := exprFixed()
 	for i := 0; i < n; i++ {
@@ -306,7 +307,7 @@ func runTrees(o *hlib.Out, r *hlib.Rand, cfg hlib.Config) {
 	}
 	maxSize, maxNodes, perFormat, nSynth, nTrunc := int64(6000), 2500, 3, 250, 2
 	if cfg.Thorough() {
-		maxSize, maxNodes, perFormat, nSynth, nTrunc = 40000, 8000, 12, 4000, 5
+		maxSize, maxNodes, perFormat, nSynth, nTrunc = 40000, 8000, 8, 2500, 4
 	}
 	ss := collectSamples(repo, maxSize)
 	// deterministic shuffle, then at most perFormat files per probed format
